@@ -46,6 +46,11 @@ def configs(tier, seed, salt):
         for ov in (None, 0, 1, 2):
             if c["regs"] and ov != c["ov"] and rng.random() < (0.5 if tier == "quick" else 1.0):
                 cfgs.append(dict(c, ov=ov))
+    # the same layouts reached by another legal route: the multiplexer is constructed (and possibly elaborated once) while
+    # the memory map is still open, the last registers are added afterwards
+    for k, c in enumerate(list(cfgs)):
+        if len(c["regs"]) >= 2 and k % 5 == 0:
+            cfgs.append(dict(c, late=1 + (k % 2) * (len(c["regs"]) > 2), elab_between=bool(k % 3 == 0)))
     n = 40 if tier == "quick" else 800
     for _ in range(n):
         dw = rng.choice([8, 8, 16, 32])
@@ -86,11 +91,19 @@ def build(cfg):
 
     try:
         mm = MemoryMap(addr_width=cfg["aw"], data_width=cfg["dw"], alignment=cfg["align"])
+        late = cfg.get("late", 0)          # registers added to the (still open) map AFTER the multiplexer was constructed
+        mux = None
         for i, (w, acc, addr, al) in enumerate(cfg["regs"]):
+            if mux is None and i == len(cfg["regs"]) - late:
+                mux = csr.Multiplexer(mm, shadow_overlaps=cfg["ov"])
+                if cfg.get("elab_between"):
+                    from amaranth.hdl import Fragment
+                    Fragment.get(mux, None)      # ... and after it was elaborated once
             r = MockReg(w, acc)
             size = (w + cfg["dw"] - 1) // cfg["dw"]
             mm.add_resource(r, name=f"r{i}", size=size, addr=addr, alignment=al)
-        mux = csr.Multiplexer(mm, shadow_overlaps=cfg["ov"])
+        if mux is None:
+            mux = csr.Multiplexer(mm, shadow_overlaps=cfg["ov"])
     except (ValueError, TypeError) as e:
         raise Refused(str(e))
     return mux
